@@ -212,7 +212,7 @@ func checkBatch(rec *stats.Recorder, c batchCase) (msg string, known string) {
 			default:
 				kv := dyn.KV{K: rkk}
 				if mi.Rest() == "batch_get" {
-					kv.V = aval.Zero(S, *mi.Entity)
+					kv.V = markedEntity(*mi.Entity, i)
 					o.Statuses = append(o.Statuses, dyn.KV{K: rkk, Status: 200 + i})
 				} else {
 					kv.Status = 200 + i
@@ -362,6 +362,12 @@ func checkBatch(rec *stats.Recorder, c batchCase) (msg string, known string) {
 			if !ok {
 				return fail("%s: the entry for key %s was lost", part.name, wkv.K.Canon())
 			}
+			if wkv.V != nil {
+				// batch_get: the entity returned for this key carries a marker derived from the key's position
+				if d := aval.Diff(fillDefaults(*mi.Entity, wkv.V), g.V, ""); d != "" {
+					return fail("%s: the entity filed under key %s is not the one the resource returned for it (%s): got %s want %s", part.name, wkv.K.Canon(), d, g.V.Canon(), wkv.V.Canon())
+				}
+			}
 			if wkv.Status != g.Status && !(wkv.V != nil) {
 				return fail("%s: the entry for key %s carries status %d, the resource returned %d (attached to a different key?)", part.name, wkv.K.Canon(), g.Status, wkv.Status)
 			}
@@ -375,6 +381,29 @@ func checkBatch(rec *stats.Recorder, c batchCase) (msg string, known string) {
 	}
 	_ = total
 	return "", ""
+}
+
+// markedEntity is a valid entity that differs per index in its first integer or string field (when the record has one), so
+// that an entity attached to another key is visible.
+func markedEntity(t schema.Type, i int) *aval.V {
+	v := aval.Valid(S, t)
+	if t.Ref == nil || v.Kind != "record" {
+		return v
+	}
+	for _, f := range S.AllFields(S.Lookup(*t.Ref)) {
+		switch f.Type.Prim {
+		case "int32":
+			v.Flds[f.Name] = aval.Int32(int32(1000 + i))
+			return v
+		case "int64":
+			v.Flds[f.Name] = aval.Int64(int64(1000 + i))
+			return v
+		case "string":
+			v.Flds[f.Name] = aval.Str(fmt.Sprintf("entity-%d", i))
+			return v
+		}
+	}
+	return v
 }
 
 func onlyZeroSign(a, b *aval.V) bool {
